@@ -112,11 +112,11 @@ theorem C02_rack_timer_armed (s : St) (env : Env) (found : Bool) (nt : Int) (nts
     schedulePTOAfterSack_now, schedulePTOAfterSack_reoWnd, rackArm_list, rackArm_deliveredTime, rackArm_now, rackArm_reoWnd]
   exact rackArm_deadline _
 
+set_option linter.unusedSimpArgs false in
 /-- ✱ The probe timeout, as RFC 8985 §7.2 states it and exactly as both copies of the computation in the code give it
 (after new data was sent, and after a SACK): with data in flight the PTO is armed at `now + 2·SRTT + 2 ms`, at
 `now + 2·SRTT + WCDelAckT` when a single chunk is in flight, at `now + 1 s` without an RTT sample (disarmed if that
 duration is not positive); with nothing in flight it is stopped. -/
-set_option linter.unusedSimpArgs false in
 theorem C02_pto_deadline (s : St) (env : Env) :
     (schedulePTOAfterSend s env).ptoDeadline =
       (if s.q.length = 0 then 0 else
